@@ -99,3 +99,5 @@ def check(ctx):
                          "the consumer side of %s is reachable only from %s's own methods / Drop" % (inner, recvty))
     # ---- R-TYPE
     witness.run_witness(ctx, "c06_channels", ctx.prog.extract_info["target"])
+    # dependency (seed C06-6): the block queues under the channels (read before release / commit)
+    ctx.import_rules("C03", r"^spsc/(pop|bulk_pop)-read-then|^mpsc/take-then-commit|^mpsc/bulk-commit-equals-range|^mpsc/fast-bulk")
